@@ -374,6 +374,8 @@ func init() {
 				{"store-reputation", func() Driver { return NewRepDriver(tier) }, 3, 4, 30, 150},
 				{"store-audit", func() Driver { return NewAudDriver(tier) }, 3, 4, 30, 150},
 				{"store-estimations", func() Driver { return NewEstDriver(tier) }, 4, 6, 30, 150},
+				{"store-estimations-epoch-126", func() Driver { return NewEstDriverAt(tier, 126) }, 4, 6, 30, 150},
+				{"store-estimations-epoch-254", func() Driver { return NewEstDriverAt(tier, 254) }, 4, 6, 30, 150},
 				{"store-neofsid", func() Driver { return NewIDDriver() }, 4, 6, 30, 150},
 				{"store-config", func() Driver { return NewCfgDriver() }, 3, 4, 30, 150},
 			}
